@@ -622,16 +622,28 @@ pub async fn run(ops: &str, out: &str, stats_path: Option<&str>, work: &str) {
                                     }
                                 }
                             } else {
+                                // the public call (since fb21964 it reports a refusal)
                                 match tokio::time::timeout(CALL_TIMEOUT, svc.update_data_model(&text)).await {
                                     Err(_) => "hang".into(),
                                     Ok(r) => {
                                         let post = inst.live().await.unwrap_or_default();
                                         inst.read_stored().await;
-                                        // the public call reports nothing about a refusal; the generator only
-                                        // uses it with versions that have at most one invalid edit
-                                        hint = infer_pri(&pre, &post, None).join(",");
-                                        let _ = r;
-                                        format!("done {}", post.text())
+                                        match r {
+                                            Ok(_) => {
+                                                hint = infer_pri(&pre, &post, None).join(",");
+                                                stats.inc("res.ok");
+                                                format!("ok {}", post.text())
+                                            }
+                                            Err(e) => {
+                                                let site = db_site(&e);
+                                                hint = infer_pri(&pre, &post, Some(&site)).join(",");
+                                                stats.inc(&format!("res.err.{}", site.class));
+                                                if pre != post {
+                                                    stats.inc("refused_with_effect");
+                                                }
+                                                format!("err:{} {}", site.class, post.text())
+                                            }
+                                        }
                                     }
                                 }
                             }
